@@ -5,9 +5,13 @@ Reports on stderr, one line each, flushed:  "H" per message handed to protocol.h
 "T" per completed @thread handler of the notification "t/slow" (30 ms each, ONE pool worker, so frames sent
 back to back leave a backlog of queued handlers at the disconnect),
 "RETURNED stop=<0|1> pool=<0|1>" when the start_* call returns, "RAISED <type>" when it raises."""
-import logging, sys, time
+import logging, os, sys, time
+from concurrent.futures import ThreadPoolExecutor
 logging.disable(logging.CRITICAL)
 from pygls.lsp.server import LanguageServer
+sys.path.insert(0, os.path.dirname(os.path.dirname(os.path.abspath(__file__))))
+import priv          # private parts of pygls (the parent check has resolved the same names before it starts us)
+priv.preflight(["server.stop_event", "server.thread_pool"])       # now: no probing after the loop has ended
 
 
 def log(s):
@@ -34,12 +38,14 @@ def slow(params):
     log("T")
 
 
-server._max_workers = 1              # (LanguageServer(max_workers=..) does not reach JsonRPCServer on this HEAD)
-pool = server.thread_pool            # created up front, so that shutdown() has a pool to shut down
+# ONE worker (LanguageServer(max_workers=..) does not reach JsonRPCServer on this HEAD), created up front,
+# so that shutdown() has a pool to shut down
+priv.set_thread_pool(server, ThreadPoolExecutor(max_workers=1))
+pool = server.thread_pool
 
 
 def state():
-    ev = getattr(server, "_stop_event", None)
+    ev = priv.stop_event(server)
     stop = int(ev is not None and ev.is_set())
     try:
         pool.submit(lambda: None)
